@@ -28,7 +28,12 @@ Step ==
               /\ Check("C19:residual_orthogonal_to_polynomials", Ev.n <= Ev.order + 1 \/ Ev.qdot <= 64)
               /\ Check("C19:detrend_idempotent", Ev.qidem <= 64)
               /\ Check("C19:polynomial_detrends_to_zero", Ev.qpoly <= 64)
+         [] Ev.t = "detrend32" ->        \* single-precision samples: the residual of exactly those numbers (7e-8 of slack for the float32 idempotence round trip)
+              /\ Check("C19:residual_orthogonal_to_polynomials", Ev.n <= Ev.order + 1 \/ Ev.qdot <= 64)
+              /\ Check("C19:detrend_idempotent", Ev.qidem <= 256)
+              /\ Check("C19:polynomial_detrends_to_zero", Ev.qpoly <= 256)
          [] Ev.t = "rms" ->
+              /\ Check("C19:get_rms_is_the_integral_for_every_band_asked", Ev.qedge <= 4)
               /\ Check("C19:band_rms_additive_in_power", Ev.qadd <= 64)
               /\ Check("C19:band_rms_monotone_under_nesting", Ev.nested = 1)
               /\ Check("C19:get_rms_is_the_integral_with_swapped_ends", Ev.qswap <= 4)
